@@ -260,6 +260,10 @@ func runConcOne(o fsOpts, res *result, j int, id, dir string) {
 		driverPrefix = append(driverPrefix, h.EnvLine(items, nil), call.Line())
 		res.Calls++
 	}
+	if j%4 == 3 {
+		runConcBurst(o, res, r, e, s0, id, dir, c, driverPrefix, &concurrent)
+		return
+	}
 	// ---- concurrent phase
 	k := 2 + r.Intn(o.clients-1)
 	per := 3
@@ -463,4 +467,104 @@ func runConcParent(o fsOpts, args []string) *result {
 	}
 	wg.Wait()
 	return total
+}
+
+// runConcBurst: many clients, each creating, writing, closing and stat-ing its own files in
+// its own directory.  The paths are disjoint, so every sequential order gives the same
+// answer: every call succeeds, and afterwards every file is there with its content.  No
+// enumeration is needed; what it adds is contention (index probes outside the filesystem lock
+// overlapping index writes, many handles open at once).
+func runConcBurst(o fsOpts, res *result, r *rand.Rand, e *h.Env, s0 *h.Session, id, dir string, c h.Cfg, driverPrefix []string, concurrent *int32) {
+	k := o.clients
+	if k < 4 {
+		k = 4
+	}
+	perClient := 5
+	en := h.EncName
+	type want struct {
+		name string
+		n    int
+		seed int64
+	}
+	wants := make([][]want, k)
+	var mu sync.Mutex
+	var failures []string
+	var calls []string
+	var wg sync.WaitGroup
+	start := make(chan struct{})
+	var stuck int32
+	atomic.StoreInt32(concurrent, 1)
+	for ci := 0; ci < k; ci++ {
+		for f := 0; f < perClient; f++ {
+			wants[ci] = append(wants[ci], want{fmt.Sprintf("/d%d/b%dn%d", 1+ci%2, ci, f), []int{0, 1, 300, 700, 2000}[r.Intn(5)], int64(r.Intn(1 << 20))})
+		}
+		wg.Add(1)
+		go func(ci int) {
+			defer wg.Done()
+			s := h.NewSession(e)
+			s.Timeout = o.watchdog
+			<-start
+			for f, w := range wants[ci] {
+				hid := fmt.Sprint(5000 + ci*100 + f)
+				seq := []h.Call{{Method: "create", Args: []string{hid, en(w.name)}},
+					{Method: "hwrite", Args: []string{hid, fmt.Sprint(w.n), fmt.Sprint(w.seed)}},
+					{Method: "hclose", Args: []string{hid}},
+					{Method: "stat", Args: []string{en(w.name)}}}
+				for _, call := range seq {
+					out := s.Exec(call)
+					mu.Lock()
+					calls = append(calls, fmt.Sprintf("client %d: %s -> %s", ci, strings.ReplaceAll(call.Line(), "\t", " "), strings.ReplaceAll(out, "\t", " ")))
+					res.Calls++
+					res.Methods[call.Method]++
+					res.Results["burst "+call.Method+":"+strings.SplitN(out+"\t", "\t", 3)[1]]++
+					if !strings.HasPrefix(out, "res\tok") {
+						failures = append(failures, fmt.Sprintf("client %d: %s on its own file %s returned %s", ci, call.Method, w.name, strings.TrimPrefix(out, "res\t")))
+					}
+					mu.Unlock()
+					if s.Wedged {
+						atomic.StoreInt32(&stuck, 1)
+						return
+					}
+				}
+			}
+		}(ci)
+	}
+	close(start)
+	wg.Wait()
+	atomic.StoreInt32(concurrent, 0)
+	res.Histories++
+	res.OracleChecks["C11"]++
+	fail := func(what string) {
+		res.OracleFails = append(res.OracleFails, OracleFail{Property: "C11", Hist: id, What: what, Calls: append(append([]string{}, driverPrefix...), calls...)})
+	}
+	if stuck != 0 {
+		res.Wedged++
+		fail("a call of a concurrent client (disjoint paths) never returned")
+		return
+	}
+	if len(failures) > 0 {
+		fail("concurrent clients on disjoint paths: " + failures[0])
+		return
+	}
+	for ci := range wants {
+		for _, w := range wants[ci] {
+			var b []byte
+			var err error
+			if !s0.Guard(func() { b, err = s0.SafeCat(w.name) }) {
+				fail("reading back after the burst never returned")
+				return
+			}
+			if w.n == 0 {
+				continue // empty files: nothing to compare (and unreadable under codecs, F18)
+			}
+			if err != nil || !bytes.Equal(b, h.GenBytes(w.n, w.seed)) {
+				fail(fmt.Sprintf("after concurrent clients on disjoint paths, %s does not read back what its client wrote (err=%v, %d bytes)", w.name, err, len(b)))
+				return
+			}
+		}
+	}
+	res.Nontrivial++
+	if rb := rebuildTape(dir, c, e.Drive, "burst", s0); rb.err != "" {
+		fail("after the burst the tape does not rebuild: " + rb.err)
+	}
 }
